@@ -138,38 +138,46 @@ def run(repo, rep, tier):
         raise AnalysisError(f"regrid_spec: expected two seam-padding branches, found {len(pads)}")
     # ---- R-C08-4 order of normalisation steps ---------------------------------------------------------
     seq = []
+
+    def _spine(v):
+        """calls along the receiver spine of a chained expression, innermost first: a.m1(..).m2(..) -> [m1-call, m2-call]; f(x.m(..), ..) -> [m-call, f-call]"""
+        if isinstance(v, ast.Call) and isinstance(v.func, ast.Attribute):
+            return _spine(v.func.value) + [v]
+        if isinstance(v, ast.Call) and isinstance(v.func, ast.Name) and v.args:
+            return _spine(v.args[0]) + [v]
+        return []
     for s in ast.walk(fi.node):
         if isinstance(s, ast.Assign) and isinstance(s.targets[0], ast.Name) and s.targets[0].id == OUT:
-            t = unparse(s.value)
-            v = s.value
-            is_mod = False
-            if isinstance(v, ast.Call) and isinstance(v.func, ast.Attribute) and v.func.attr == "assign_coords":
-                for d_ in [a_ for a_ in v.args if isinstance(a_, ast.Dict)]:
-                    for vv in d_.values:
-                        vv = resolve(fi.node, vv, before=s.lineno) if isinstance(vv, ast.Name) else vv
+            for k_step, v in enumerate(_spine(s.value)):
+                where_ = (s.lineno, k_step)
+                is_mod = False
+                if isinstance(v.func, ast.Attribute) and v.func.attr == "assign_coords":
+                    for d_ in [a_ for a_ in v.args if isinstance(a_, ast.Dict)]:
+                        for vv in d_.values:
+                            vv = resolve(fi.node, vv, before=s.lineno) if isinstance(vv, ast.Name) else vv
+                            if any(isinstance(x, ast.BinOp) and isinstance(x.op, ast.Mod) and repo.const(fi.module, x.right) == 360 for x in ast.walk(vv)):
+                                is_mod = True
+                    for k_ in v.keywords:
+                        vv = resolve(fi.node, k_.value, before=s.lineno) if isinstance(k_.value, ast.Name) else k_.value
                         if any(isinstance(x, ast.BinOp) and isinstance(x.op, ast.Mod) and repo.const(fi.module, x.right) == 360 for x in ast.walk(vv)):
                             is_mod = True
-                for k_ in v.keywords:
-                    vv = resolve(fi.node, k_.value, before=s.lineno) if isinstance(k_.value, ast.Name) else k_.value
-                    if any(isinstance(x, ast.BinOp) and isinstance(x.op, ast.Mod) and repo.const(fi.module, x.right) == 360 for x in ast.walk(vv)):
-                        is_mod = True
-            if is_mod:
-                seq.append(("mod", s.lineno))
-            elif "unique_indices" in t or (isinstance(v, ast.Call) and isinstance(v.func, ast.Attribute) and v.func.attr == "isel" and any(
-                    isinstance(a_, ast.Assign) and isinstance(a_.value, ast.Call) and call_name(a_.value).split(".")[-1] == "unique" and
-                    isinstance(a_.targets[0], (ast.Tuple, ast.List)) and any(isinstance(e_, ast.Name) and any(
-                        isinstance(k_.value, ast.Name) and k_.value.id == e_.id for k_ in v.keywords) for e_ in a_.targets[0].elts)
-                    for a_ in ast.walk(fi.node))):
-                # de-duplication: the helper, or its body  `_, index = np.unique(x[dir], return_index=True); x.isel(dir=index)`
-                seq.append(("unique", s.lineno))
-            elif ".sortby(" in t:
-                seq.append(("sort", s.lineno))
-            elif isinstance(v, ast.Call) and call_name(v) in ("xr.concat", "xarray.concat") and kwarg(v, "dim") is not None and repo.const(fi.module, kwarg(v, "dim")) == D:
-                seq.append(("concat", s.lineno))
-            elif isinstance(v, ast.Call) and isinstance(v.func, ast.Attribute) and v.func.attr == "interp" and any(k.arg == D for k in v.keywords):
-                seq.append(("interp_dir", s.lineno))
+                if is_mod:
+                    seq.append(("mod", where_))
+                elif call_name(v).split(".")[-1] == "unique_indices" or (isinstance(v.func, ast.Attribute) and v.func.attr == "isel" and any(
+                        isinstance(a_, ast.Assign) and isinstance(a_.value, ast.Call) and call_name(a_.value).split(".")[-1] == "unique" and
+                        isinstance(a_.targets[0], (ast.Tuple, ast.List)) and any(isinstance(e_, ast.Name) and any(
+                            isinstance(k_.value, ast.Name) and k_.value.id == e_.id for k_ in v.keywords) for e_ in a_.targets[0].elts)
+                        for a_ in ast.walk(fi.node))):
+                    # de-duplication: the helper, or its body  `_, index = np.unique(x[dir], return_index=True); x.isel(dir=index)`
+                    seq.append(("unique", where_))
+                elif isinstance(v.func, ast.Attribute) and v.func.attr == "sortby":
+                    seq.append(("sort", where_))
+                elif call_name(v) in ("xr.concat", "xarray.concat") and kwarg(v, "dim") is not None and repo.const(fi.module, kwarg(v, "dim")) == D:
+                    seq.append(("concat", where_))
+                elif isinstance(v.func, ast.Attribute) and v.func.attr == "interp" and any(k.arg == D for k in v.keywords):
+                    seq.append(("interp_dir", where_))
     names = [a for a, _ in sorted(seq, key=lambda x: x[1])]
-    if names == ["mod", "unique", "sort", "concat", "interp_dir"] and all(p.lineno > dict(seq)["sort"] for p in pads):
+    if names == ["mod", "unique", "sort", "concat", "interp_dir"] and all(p.lineno > dict(seq)["sort"][0] for p in pads):
         rep.ok("R-C08-4", f"{fi.file} regrid_spec", " -> ".join(names), "% 360, de-duplicate, sort, then pad across the seam, then interpolate")
     else:
         rep.fail("R-C08-4", fi.file, fi.node.lineno, fi.qualname, " -> ".join(names),
@@ -288,6 +296,10 @@ def run(repo, rep, tier):
                     v_ = a_.value
                     coercion = isinstance(a_, ast.Assign) and isinstance(v_, ast.Call) and call_name(v_).split(".")[-1] in ("array", "asarray", "atleast_1d", "asanyarray") \
                         and v_.args and unparse(v_.args[0]) == pn
+                    from .shared import _coerced_param_table
+                    if not coercion and isinstance(a_, ast.Assign) and isinstance(v_, ast.Subscript) and isinstance(v_.value, ast.Name) \
+                            and _coerced_param_table(fi.node, v_.value.id, v_.slice, pn):
+                        coercion = True       # read back from a local table of the parameters whose entries are only coerced in place
                     if coercion:
                         rep.ok("R-C08-5", f"{fi.file}:{a_.lineno} regrid_spec", unparse(a_), "type coercion only: values are the caller's")
                     else:
